@@ -15,11 +15,12 @@ PROPS = {
                      "rule); TLC proves them on the design for all metadata shapes (none/one/two/no-ref/mixed) and the metadata "
                      "argument of every real update()/_emit() call is compared with the specification's.",
                 note="Trusted: TLC; enc_md projection (nested lists / None are mapped to invalid tags so they cannot match)."),
-    "C16": dict(engines=["sync"], design="5/C16",
+    "C16": dict(engines=["sync", "athread"], design="5/C16",
                 technique="TLA+ spec SyncFlow with fault injection (Call/failAt) + trace validation of real runs with raising user functions",
                 text="EmitAt(e, x, md, failAt) aborts the push at the chosen user-function invocations exactly as Python unwinds; TLC "
                      "checks RaisedIffInjected, NeverCheckpointFailed and the node contracts with failed offers removed; real runs with "
-                     "injected exceptions are validated call by call (raised?, node state, later deliveries, counters).",
+                     "injected exceptions are validated call by call (raised?, node state, later deliveries, counters); ThreadSync.tla covers the "
+                     "transport of a failure from the loop thread to the caller of a blocking emit (raises iff the consumer raised).",
                 note="Trusted: TLC; the failure plan counter shared by the Python user functions; only synchronous hand-offs "
                      "(asynchronous consumers are covered by the async engines)."),
 }
@@ -42,11 +43,15 @@ PROPS["C02"] = dict(engines=["abuffer", "arate", "atwindow", "apartition", "aemi
          "of producers, forwarding coroutine and consumer (Future, native coroutine, synchronous); every recorded schedule of the real node "
          "must be a behaviour of its module.",
     note="Trusted: TLC; virtual-time loop; node-level pipelines source -> node -> recording consumer.")
-PROPS["C03"] = dict(engines=["abuffer", "arate", "atwindow", "apartition", "aemit", "amapasync", "azip"], design="5/C03",
+PROPS["C03"] = dict(engines=["abuffer", "arate", "atwindow", "apartition", "aemit", "amapasync", "azip", "athread"], design="5/C03",
     technique="TLA+ specs of the asynchronous nodes with emit awaitables (putDone/emitDone) checked by TLC incl. liveness + trace validation",
     text="AsyncBuffer.tla models tornado's bounded Queue (parked putters); TLC checks Bound, ParkedNotDone, NoStuckEmit and the liveness "
-         "property EmitsComplete under weak fairness; emit_done events of real runs are validated against the model.",
-    note="Trusted: TLC; virtual-time loop; same-loop operation.")
+         "property EmitsComplete under weak fairness; emit_done events of real runs are validated against the model.  Threaded operation: "
+         "ThreadSync.tla models sync(): producer threads, the loop thread's FIFO callback queue, the shared thread-local flag; TLC checks "
+         "WaitsForConsumer, NoSpuriousError, PerProducerOrder and the liveness property AllReturn; real blocking emits from 2-3 threads "
+         "with consumers completed jointly by the driver are validated against it.",
+    note="Trusted: TLC; virtual-time loop for same-loop operation; real threads with event-gated scripts for threaded operation "
+         "(no wall-clock assertion can fail on a correct tree: waits are bounded below by events, above by generous time-outs).")
 PROPS["C04"] = dict(engines=["sync", "abuffer", "alatest", "arate", "atwindow", "apartition", "aemit", "amapasync", "acomposite"], design="5/C04",
     technique="TLA+ specs carrying reference counts with the data (CbSafe invariant) checked by TLC + trace validation of instrumented RefCounters",
     text="Every module carries rc/fired next to the data; CbSafe (callback scheduled => element not stored, sleeping, or at an unfinished consumer) "
